@@ -483,6 +483,8 @@ pub fn gen_plan(sim: &Sim, id: u64, shape: usize, max_msg: usize) -> CallPlan {
             src_pending: sim.pick(&[0u64, 0, 20, 70]),
             disable_compression: shape <= 1 && sim.chance(1, 5),
             read_mode: if shape == 1 { sim.pick(&[0u8, 0, 0, 1]) } else if shape == 3 { sim.pick(&[0u8, 1, 2]) } else { 0 },
+            latency_us: 0,
+            gap_us: 0,
         },
         req_src_pending: sim.pick(&[0u64, 0, 20, 70]),
         extra_polls: sim.range(0, 2) as u32,
